@@ -174,7 +174,7 @@ def main():
     props = [json.loads(l) for l in open(os.path.join(ROOT, "properties.jsonl"))]
     m = {
         "version": 1,
-        "setup_cmd": "/venv/bin/python tools/extract.py && cd lean && lake build",
+        "setup_cmd": "/venv/bin/python tools/extract.py && cd lean && lake build && lake build " + " ".join(f"Snmp.Props.C{i:02d}" for i in range(1, 21)),
         "hooks": {
             "guard": "PURESNMP_VERIF",
             "enable": "no source hooks: every observation point is a public seam (Client(sender=...), send_udp(loop=...), "
